@@ -74,6 +74,10 @@ fn finish(tier: Tier, rep: &mut Report) {
         ("faulty_stream_reported[HeaderTooBig]", 100),
         ("faulty_stream_reported[H3_REQUEST_INCOMPLETE]", 50),
         ("reset_class[InsideData]", 20),
+        ("wire_signal_checked[FinBeforeHeaders]", 50),
+        ("wire_signal_checked[Malformed head]", 50),
+        ("wire_signal_checked[Malformed response]", 50),
+        ("wire_signal_checked[Malformed trailers]", 20),
         ("reset_class[InsideHeaderFrame]", 20),
     ] {
         if rep.get(k) < floor {
@@ -355,6 +359,54 @@ fn judge_faulty(fault: &Fault, evs: &[Ev], h3_is_server: bool, limit: u64, what:
     false
 }
 
+/// What the peer is told about a fault h3 detected on a stream (sim pipes): a stream error is an
+/// abort of the stream carrying the code (RFC 9114 8: RESET_STREAM and/or STOP_SENDING), never a
+/// clean end. `h3_side`'s sending pipe and the STOP_SENDING it issued on the other one are looked at.
+fn judge_wire_signal(fault: &Fault, reported: bool, nn: &sim::NetInner, sid: u64, h3_side: usize, what: &str, rep: &mut Report, case: &serde_json::Value) {
+    if !reported {
+        return;
+    }
+    let st = &nn.streams[&sid];
+    let out = st.pipe(h3_side); // h3 -> peer
+    let inn = st.pipe(1 - h3_side); // peer -> h3 (h3 may have asked to stop it)
+    let explicit_stop = if inn.stop_implicit { None } else { inn.stop_sent };
+    let h3_is_server = h3_side == SERVER;
+    match fault {
+        Fault::FinBeforeHeaders if h3_is_server => {
+            rep.count("wire_signal_checked[FinBeforeHeaders]");
+            // RFC 9114 4.1: the server aborts its response stream with H3_REQUEST_INCOMPLETE
+            match out.reset_sent {
+                Some(c) if c == rf::H3_REQUEST_INCOMPLETE => {}
+                Some(c) => viol(rep, "faulty-stream-wire-code[FinBeforeHeaders]", format!("{}: response side reset with {:#x} instead of H3_REQUEST_INCOMPLETE", what, c), case),
+                None => viol(rep, "faulty-stream-not-aborted-on-the-wire[FinBeforeHeaders]", format!("{}: the application was told H3_REQUEST_INCOMPLETE but the response side was not reset (fin_sent={} bytes={}): the peer sees a clean, empty response", what, out.fin_sent, out.sent.len()), case),
+            }
+        }
+        Fault::Malformed { in_trailers: false, .. } if h3_is_server => {
+            rep.count("wire_signal_checked[Malformed head]");
+            match (out.reset_sent, explicit_stop) {
+                (Some(c), _) if c == rf::H3_MESSAGE_ERROR => {}
+                (Some(c), _) => viol(rep, "faulty-stream-wire-code[Malformed]", format!("{}: response side reset with {:#x} instead of H3_MESSAGE_ERROR", what, c), case),
+                (None, _) => viol(rep, "faulty-stream-not-aborted-on-the-wire[Malformed]", format!("{}: the application was told H3_MESSAGE_ERROR but the response side was not reset (fin_sent={} bytes={} stop_sending={:?}): the peer sees a clean end without a response", what, out.fin_sent, out.sent.len(), explicit_stop), case),
+            }
+        }
+        Fault::Malformed { in_trailers, .. } => {
+            // client (head or trailers) / server trailers: the receiving side of the message is
+            // abandoned with an explicit STOP_SENDING (the request side stays the application's)
+            rep.count(if *in_trailers { "wire_signal_checked[Malformed trailers]" } else { "wire_signal_checked[Malformed response]" });
+            match explicit_stop {
+                Some(c) if c == rf::H3_MESSAGE_ERROR || c == rf::H3_REQUEST_CANCELLED => {}
+                Some(c) => viol(rep, "faulty-stream-wire-code[Malformed]", format!("{}: STOP_SENDING carries {:#x}, neither H3_MESSAGE_ERROR nor H3_REQUEST_CANCELLED", what, c), case),
+                None if inn.fin_read || inn.reset_delivered => {
+                    // everything had been read already: nothing left to stop
+                    rep.count("wire_signal_nothing_left_to_stop");
+                }
+                None => viol(rep, "faulty-stream-not-aborted-on-the-wire[Malformed]", format!("{}: the application was told H3_MESSAGE_ERROR but h3 sent no STOP_SENDING for the rest of the message", what), case),
+            }
+        }
+        _ => {}
+    }
+}
+
 fn short(o: &Out) -> String {
     match o {
         Out::Data(d) => format!("Data({})", d.len()),
@@ -487,6 +539,8 @@ fn check_server_role(seed: u64, rep: &mut Report) {
         match &asg.faults[i] {
             Some(f) => {
                 judge_faulty(f, &sevs, true, LIMIT, &what, rep, &case);
+                let reported = sevs.iter().any(|e| matches!(e.out, Out::Err(AErr::Stream { .. })));
+                judge_wire_signal(f, reported, &nn, sid, SERVER, &what, rep, &case);
                 if *f == Fault::Oversized {
                     // 431 answer expected (the raw client advertised no limit)
                     let d = wiremsg::decode_stream(&nn.streams[&sid].pipe(SERVER).sent);
@@ -623,6 +677,8 @@ fn check_client_role(seed: u64, rep: &mut Report) {
             let act = format!("c:req#{}", i);
             let cevs: Vec<Ev> = evs.iter().filter(|e| e.actor == act || e.actor.starts_with(&format!("{}:", act))).cloned().collect();
             dont_care_conn_error |= judge_faulty(f, &cevs, false, LIMIT, &format!("response on stream {}", sid), rep, &case);
+            let reported = cevs.iter().any(|e| matches!(e.out, Out::Err(AErr::Stream { .. })));
+            judge_wire_signal(f, reported, &nn, sid, CLIENT, &format!("response on stream {}", sid), rep, &case);
         }
     }
     if dont_care_conn_error {
